@@ -215,9 +215,13 @@ where
 {
     type Stream = Self;
 
-    fn into_parts(self) -> (Vector<VectorDiffContainerStreamElement<S>>, Self::Stream) {
+    fn into_parts(mut self) -> (Vector<VectorDiffContainerStreamElement<S>>, Self::Stream) {
         // Hand out the current (limited) view, not the unlimited buffer.
         let values = self.buffered_vector.clone().truncate_from_end(self.limit);
+
+        // Diffs that were computed but not handed out yet are already part of
+        // `values`; they must not be emitted on top of them.
+        self.ready_values = Default::default();
 
         (values, self)
     }
